@@ -1,6 +1,7 @@
 package main
 
 import (
+	"sync"
 	"fmt"
 	"go/token"
 	"go/types"
@@ -17,6 +18,9 @@ import (
 const repoModule = "github.com/robfig/soy"
 
 type Prog struct {
+	exprReachOnce sync.Once
+	exprReachKeys map[string]bool
+	exprReachDisp map[string]bool
 	fset   *token.FileSet
 	prog   *ssa.Program
 	pkgs   []*packages.Package
